@@ -90,6 +90,39 @@ class Gen:
         return ('Conditional', ('name', r.choice(NAMES)), sub()) if r.random() < 0.5 else ('Conditional', ('name', r.choice(NAMES)), sub(), sub())
 
 
+WIDE_BOUNDS = [('i', 0), ('i', 1), ('i', 2), ('i', 3), ('i', 4), ('i', 7), ('i', 9), ('i', 10), ('i', 11), ('i', 12), ('i', 20), ('i', 99),
+               ('i', 100), ('i', 101), ('none',)]
+
+
+class WideGen(Gen):
+    """Programs outside the bounds of the exhaustive instances: repetition bounds with two and three digits, literals of up
+    to 8 characters, up to 5 operands, depth up to 5 - over a small alphabet, so that reference-guided texts are meaningful."""
+    def __init__(self, seed):
+        Gen.__init__(self, seed, bad_share=0.0, alphabet=[97, 98, 97, 98, 99, 49, 92, 36, 40, 124, 46, 91, 10, 45, 39])
+
+    def string(self, maxlen=8):
+        n = self.r.choice([1, 1, 2, 3, 4, 5, 8])
+        return tuple(self.cp() for _ in range(min(n, maxlen)))
+
+    def bound(self, valid_only=False):
+        return self.r.choice(WIDE_BOUNDS)
+
+    def term(self, depth):
+        r = self.r
+        if depth > 0 and r.random() < 0.12:
+            n = r.choice([3, 4, 5])
+            return (r.choice(['Concat', 'Either']), ('args',) + tuple(self.term(depth - 1) for _ in range(n)))
+        return Gen.term(self, depth)
+
+
+def generate_wide(seed, n):
+    out = []
+    for i in range(n):
+        g = WideGen(seed * 104729 + i)
+        out.append(g.term(g.r.choice([2, 3, 4, 4, 5])))
+    return out
+
+
 def generate(seed, n, depth=3, **kw):
     g = Gen(seed, **kw)
     out = []
